@@ -164,7 +164,10 @@ def spectrum_cases(rng, n, ctx, nmax):
         if N >= 3:
             Nt = int(rng.integers(1, N))
             tproj = t0 + 1
-            pr = _call(lambda: c.prune(Nt, tproj=tproj, t0proj=t0))
+            # a matrix that is not exactly symmetric is symmetrised first: the antisymmetric part must not leak into the pruned matrix
+            asym_in = bool(rng.random() < 0.5)
+            cin = matrix_corr(rng, E, Z, T, asym=0.05, rel=1e-6) if asym_in else c
+            pr = _call(lambda: cin.prune(Nt, tproj=tproj, t0proj=t0))
             if isinstance(pr, Exception):
                 cases.append({'id': 'prune-%04d' % i, 'ev': 'spectrum', 'what': 'prune raised ' + type(pr).__name__, 't0': t0, 'E': [rat(float(e)) for e in E[:1]], 'lam': [[{'k': 'x', 'x': 'nan'}]]})
                 continue
@@ -188,7 +191,7 @@ def spectrum_cases(rng, n, ctx, nmax):
                     if isinstance(ev, Exception):
                         row[t0 + 1] = {'k': 'x', 'x': 'nan'}
                     lam.append(row)
-            cases.append({'id': 'prune-%04d-N%d-to%d' % (i, N, Nt), 'ev': 'spectrum', 'what': 'pruned to %d states' % Nt, 't0': t0,
+            cases.append({'id': 'prune-%04d-N%d-to%d%s' % (i, N, Nt, '-asym' if asym_in else ''), 'ev': 'spectrum', 'what': 'pruned to %d states' % Nt, 't0': t0,
                           'E': [rat(float(e)) for e in E[:Nt]], 'lam': lam})
     return cases
 
